@@ -125,6 +125,23 @@ func runC19(t *testing.T, seed uint64, m *Mask) *Report {
 			}
 		}
 		simrt.WaitCond(func() bool { return done == live })
+		if fault == "none" {
+			// calls without a body (nil argument), after calls with one: the proxy forwards exactly the
+			// (empty) body it was given
+			for j := 0; j < 1+e.Gen.Intn(3); j++ {
+				var rv, rd []byte
+				arg := []byte(nil)
+				if e.Gen.Chance(0.3) {
+					arg = []byte(world.GenString(e.Gen, 1+e.Gen.Intn(30), "KLMNOP"))
+				}
+				cv := via.Call(rt.Blank, arg, &rv, erpc.WithBodyCodec('s'))
+				cd := direct.Call(rt.Blank, arg, &rd, erpc.WithBodyCodec('s'))
+				if cv.Status().OK() != cd.Status().OK() || string(rv) != string(rd) {
+					e.Fail("C19/proxied-differs-from-direct", "call with a %d-byte body (%s): via the proxy %v %q, directly %v %q", len(arg), rep.Cell, cv.Status(), rv, cd.Status(), rd)
+				}
+				e.Probe("c19-empty-body-calls")
+			}
+		}
 		simrt.WaitQuiescent()
 		e.CheckSettled("C19/task-stuck-at-quiescence", rep.Cell)
 		inv := map[string][]world.HandlerEvent{}
